@@ -181,6 +181,8 @@ def Head.delete (h : Head) (lid : Nat) (mint maxt : Int) : Head :=
   | some s =>
     if s.smps = [] then h.log [.tomb []] else
     let (a, b) := clampInterval a b s.minTime s.maxTime
+    -- `if t0 > t1 { continue }` (repair 507591f03f): the range does not overlap this series' data
+    if a > b then h.log [.tomb []] else
     { h with mem := m.upd { s with tombs := addTomb s.tombs ⟨a, b⟩ } }.log [.tomb [⟨s.ref, [(a, b)]⟩]]
 
 def insNat (x : Nat) : List Nat → List Nat
